@@ -76,3 +76,25 @@ Theorem C01_truncate {T} {O : Ops T} {RL : RingLaws T} {OL : OrderLaws T}
   (hsum N' (Tot P delta c out delta0 e0 K j d b) <= hsum N (Tot P delta c out delta0 e0 K j d b))%T.
 Proof. intros Hc He. exact (window_monotone P delta c out delta0 e0 Hc He N N' K j d b). Qed.
 Print Assumptions C01_truncate.
+
+(** (1''') the statement itself, on the executable pipeline model of a diffusely reflecting scene:
+    with a window that holds every arrival, the order-(k+1) energy summed over patches and time
+    equals the order-k energy of every patch m, redistributed by form factor x attenuation [Gm m j]
+    and multiplied, patch by patch, by the reflectance of the wall of the RECEIVING patch j *)
+From SV Require Import Proofs.Reciprocity Proofs.ReciprocityModel Proofs.BalanceModel.
+Theorem C01_model_balance {T} {O : Ops T} {RL : RingLaws T}
+    (sc : @scene T) tm b rho (p : @point_data T) N k :
+  wf_scene sc -> s_nd sc = 1 -> (forall w a d, beta sc w a d b = rho w) -> b < s_nb sc ->
+  (forall m j, m < s_np sc -> j < s_np sc -> scene_delta sc tm m j <= N /\
+      forall t, N - scene_delta sc tm m j <= t -> t < N ->
+        E (directed (vis_pairs sc)) (scene_delta sc tm) (tilde_entry sc) (out_index sc)
+          (scene_delta0 sc tm (as_source p)) (e0dir_entry sc (as_source p)) k m 0 b t = 0%T) ->
+  sumf (seq 0 (s_np sc)) (fun j => hsum N
+    (E (directed (vis_pairs sc)) (scene_delta sc tm) (tilde_entry sc) (out_index sc)
+       (scene_delta0 sc tm (as_source p)) (e0dir_entry sc (as_source p)) (S k) j 0 b)) =
+  sumf (seq 0 (s_np sc)) (fun j =>
+    (rho (wall sc j) * sumf (seq 0 (s_np sc)) (fun m => (Gm sc b m j * hsum N
+      (E (directed (vis_pairs sc)) (scene_delta sc tm) (tilde_entry sc) (out_index sc)
+         (scene_delta0 sc tm (as_source p)) (e0dir_entry sc (as_source p)) k m 0 b))%T))%T).
+Proof. intros WF Hnd Hd Hb. exact (model_balance sc tm b WF Hnd rho Hd Hb p N k). Qed.
+Print Assumptions C01_model_balance.
